@@ -62,6 +62,12 @@ def phi_contract_forms(P, xP, Q, numeric=False):
                 t_ = neg(v) if vn == 'disp_in' else pos(v)
             elif vn == 'disp' and (asset, 'disp_in', st, node) in kp and (asset, 'disp_out', st, node) in kp:
                 t_ = xP[kp[(asset, 'disp_in', st, node)]] + xP[kp[(asset, 'disp_out', st, node)]]
+            elif vn == 'scale':
+                # the scale of a scaled asset: one variable in the unsplit problem, one per interval in a split problem (filed at the interval's
+                # first step) -- at a fixed scale they all carry the same value
+                cands = sorted((kk for kk in kp if kk[0] == asset and kk[1] == 'scale'), key=lambda kk: kk[2])
+                if cands:
+                    t_ = xP[kp[cands[0]]]
         terms.append(t_)
         if t_ is None:
             missing.append(i)
